@@ -37,6 +37,10 @@ def run(ctx, crate):
     from .c03 import rule_row_transfer_pairing
     rule_row_transfer_pairing(ctx, crate)
     rule_multi_arm_unconditional(ctx, crate)
+    # "directly below everything printed so far": a member's println lines (Text and Empty alike) move to the orphan queue
+    from .c03 import rule_orphan_split, rule_orphan_moved
+    rule_orphan_moved(ctx, crate)
+    rule_orphan_split(ctx, crate)
 
 
 def rule_multi_exclusive(ctx, crate, rule="R-MULTI-EXCLUSIVE"):
